@@ -118,7 +118,7 @@ fn hash_acts() -> Vec<Act> {
         vec!["HSET", "h", "", ""], vec!["HMSET", "h", "f", "v", "k", "x"], vec!["HMSET", "h", "f"], vec!["HSET", "h", "n", I64MAX], vec!["HSET", "h", "n", "007"],
         vec!["HDEL", "h", "f"], vec!["HDEL", "h", "zz"], vec!["HDEL", "h", "f", "g", "zz"], vec!["HDEL", "h", "f", "g", "k", "n", ""], vec!["HDEL", "h"],
         vec!["HINCRBY", "h", "g", "1"], vec!["HINCRBY", "h", "g", "-7"], vec!["HINCRBY", "h", "f", "1"], vec!["HINCRBY", "h", "n", "1"], vec!["HINCRBY", "h", "g", "x"], vec!["HINCRBY", "h", "g", "1.5"],
-        vec!["HINCRBY", "h", "new", "3"], vec!["HINCRBY", "h", "g", I64MAX], vec!["HINCRBY", "h", "g", "9223372036854775808"], vec!["HINCRBY", "h", "g"],
+        vec!["HINCRBY", "h", "new", "3"], vec!["HINCRBY", "h", "zero", "0"], vec!["HINCRBY", "h", "g", "0"], vec!["HINCRBY", "h", "g", I64MAX], vec!["HINCRBY", "h", "g", "9223372036854775808"], vec!["HINCRBY", "h", "g"],
         vec!["SET", "h", "str"], vec!["DEL", "h"], vec!["LPUSH", "w", "a"],
     ] {
         a.push(cmd(&c));
